@@ -480,11 +480,11 @@ func (u *Universe) localStores(a *ssa.Alloc, busy map[ssa.Value]bool) []localSto
 // localFieldValues resolves the value at selector path sels of local object a
 // from the stores made to it in its function.
 func (u *Universe) localFieldValues(a *ssa.Alloc, sels []Sel, busy map[ssa.Value]bool) ([]Path, bool) {
-	if busy[a] {
+	if u.allocBusy[a] {
 		return nil, false
 	}
-	busy[a] = true
-	defer delete(busy, a)
+	u.allocBusy[a] = true
+	defer delete(u.allocBusy, a)
 	var out []Path
 	found := false
 	for _, ls := range u.localStores(a, busy) {
